@@ -517,11 +517,42 @@ class _AdbIOManager(object):
         """
         packed = msg.pack()
         _LOGGER.debug("bulk_write(%d): %r", len(packed), packed)
-        self._transport.bulk_write(packed, adb_info.transport_timeout_s)
+        self._write_bytes_to_device(packed, adb_info)
 
         if msg.data:
             _LOGGER.debug("bulk_write(%d): %r", len(msg.data), msg.data)
-            self._transport.bulk_write(msg.data, adb_info.transport_timeout_s)
+            self._write_bytes_to_device(msg.data, adb_info)
+
+    def _write_bytes_to_device(self, data, adb_info):
+        """Write all of ``data`` to the device; the transport may accept fewer bytes than it is given.
+
+        Parameters
+        ----------
+        data : bytes, bytearray
+            The data that will be sent
+        adb_info : _AdbTransactionInfo
+            Info and settings for this ADB transaction
+
+        Raises
+        ------
+        adb_shell.exceptions.AdbTimeoutError
+            Did not write all of ``data`` in time
+
+        """
+        start = time.time()
+
+        while True:
+            num_sent = self._transport.bulk_write(data, adb_info.transport_timeout_s)
+
+            # Transports that do not report how many bytes they sent are assumed to have sent them all
+            if not isinstance(num_sent, int) or num_sent >= len(data):
+                return
+
+            data = data[num_sent:]
+
+            if time.time() - start > adb_info.read_timeout_s:
+                # Timeout
+                raise exceptions.AdbTimeoutError("Timeout: {} bytes were not sent (transport_timeout_s = {}, read_timeout_s = {})".format(len(data), adb_info.transport_timeout_s, adb_info.read_timeout_s))
 
 
 class AdbDevice(object):
